@@ -197,7 +197,8 @@ type xattr struct {
 }
 
 // DOCTYPE body piece: kind 0 = one plain byte, 1 = double-quoted literal, 2 = '[' inner ']',
-// 3 = single-quoted literal
+// 3 = single-quoted literal; inside '[' ']' also 4 = '<' + the bytes s that show it opens neither a
+// comment nor a PI, 5 = comment with body s, 6 = processing instruction with body s
 type xpiece struct {
 	kind  int
 	c     byte
@@ -225,11 +226,12 @@ type xitem struct {
 }
 
 type xdoc struct {
-	items []xitem
-	src   []byte
-	toks  []xtok
-	feats map[string]bool
-	hasCR bool
+	items   []xitem
+	srcNoDT []byte // the document without its DOCTYPE (see xmlWellFormed)
+	src     []byte
+	toks    []xtok
+	feats   map[string]bool
+	hasCR   bool
 }
 
 func (d *xdoc) feat(s string) { d.feats[s] = true }
@@ -377,6 +379,31 @@ func (b *xbuilder) addPI(prolog bool) {
 	b.items = append(b.items, it)
 }
 
+// c11DtInner: plain bytes of the internal subset; a '<' takes with it the 1-3 bytes that decide that it
+// opens neither "<!--" nor "<?" (the lexer looks ahead there).
+func c11DtInner(s string) []xpiece {
+	var out []xpiece
+	for i := 0; i < len(s); i++ {
+		if s[i] != '<' {
+			out = append(out, xpiece{kind: 0, c: s[i]})
+			continue
+		}
+		k := 1
+		if i+1 < len(s) && s[i+1] == '!' {
+			k = 2
+			if i+2 < len(s) && s[i+2] == '-' {
+				k = 3
+			}
+		}
+		if i+k >= len(s) {
+			k = len(s) - 1 - i
+		}
+		out = append(out, xpiece{kind: 4, s: s[i+1 : i+1+k]})
+		i += k
+	}
+	return out
+}
+
 func dtPlain(s string) []xpiece {
 	var out []xpiece
 	for i := 0; i < len(s); i++ {
@@ -413,14 +440,38 @@ func (b *xbuilder) addDoctype(root string) {
 		ps = append(ps, dtPlain(genXMLWS(r, false))...)
 		var inner []xpiece
 		decl := func(pre, lit, post string) {
-			inner = append(inner, dtPlain(pre)...)
+			inner = append(inner, c11DtInner(pre)...)
 			if lit != "\x00" {
 				inner = append(inner, c11DtLit(r, lit))
 			}
-			inner = append(inner, dtPlain(post)...)
+			inner = append(inner, c11DtInner(post)...)
 		}
 		for k := r.Intn(4); k > 0; k-- {
-			switch r.Intn(12) {
+			switch r.Intn(16) {
+			case 12, 13: // a comment: its body may contain ] > quotes and markup, but no "--"
+				body := ""
+				for j := r.Intn(4); j > 0; j-- {
+					body += r.PickStr([]string{"c", " ", "]", "\"", "'", ">", "]>", "<!", "<?", "[", "- ", "->"})
+				}
+				for strings.Contains(body, "--") {
+					body = strings.ReplaceAll(body, "--", "- -")
+				}
+				if strings.HasSuffix(body, "-") {
+					body += " "
+				}
+				inner = append(inner, xpiece{kind: 5, s: body})
+			case 14, 15: // a processing instruction: target, then anything without "?>"
+				body := r.PickStr([]string{"p", "pi", "x-y"})
+				for j := r.Intn(4); j > 0; j-- {
+					body += r.PickStr([]string{" ", "]", "\"", "'", ">", "]>", "<!--", "?", "[", "a=b"})
+				}
+				for strings.Contains(body, "?>") {
+					body = strings.ReplaceAll(body, "?>", "? >")
+				}
+				if strings.HasSuffix(body, "?") {
+					body += " "
+				}
+				inner = append(inner, xpiece{kind: 6, s: body})
 			case 10:
 				decl("<!ENTITY j ", "]\">[", ">")
 			case 11:
@@ -523,6 +574,12 @@ func renderPieces(ps []xpiece) string {
 			sb.WriteString("[" + renderPieces(p.inner) + "]")
 		case 3:
 			sb.WriteString("'" + p.s + "'")
+		case 4:
+			sb.WriteString("<" + p.s)
+		case 5:
+			sb.WriteString("<!--" + p.s + "-->")
+		case 6:
+			sb.WriteString("<?" + p.s + "?>")
 		}
 	}
 	return sb.String()
@@ -573,6 +630,14 @@ func buildDoc(items []xitem) *xdoc {
 		case itDoctype:
 			body := renderPieces(it.pieces)
 			s := "<!DOCTYPE" + body + ">"
+			d.srcNoDT = append([]byte{}, d.src...)
+			for _, p := range it.pieces {
+				for _, q := range p.inner {
+					if q.kind == 6 && strings.ContainsAny(q.s, "\"'<>") {
+						d.feat("doctype-pi-special")
+					}
+				}
+			}
 			d.src = append(d.src, s...)
 			tok(xtok{tt: xml.DOCTYPEToken, data: s, text: body, attrNil: true})
 			d.feat("doctype")
@@ -615,6 +680,16 @@ func buildDoc(items []xitem) *xdoc {
 		}
 	}
 	d.hasCR = bytes.IndexByte(d.src, '\r') >= 0
+	if d.feats["doctype"] {
+		// srcNoDT = bytes before the DOCTYPE + bytes after it
+		dt := 0
+		for _, t := range d.toks {
+			if t.tt == xml.DOCTYPEToken {
+				dt = len(t.data)
+			}
+		}
+		d.srcNoDT = append(d.srcNoDT, d.src[len(d.srcNoDT)+dt:]...)
+	}
 	return d
 }
 
@@ -742,6 +817,24 @@ func xmlGen(r *Rng, tier string, emit func(Case)) {
 		}
 	}
 	rec(nil, 0)
+	// (b') inside an internal subset: comments / processing instructions, terminated or not, with
+	// brackets, quotes, '>' and NUL inside them
+	dk := 4
+	if tier == "thorough" {
+		dk = 5
+	}
+	c11DtFragments := []string{"<!--", "-->", "<?", "?>", "]", "\"", "'", ">", "x", "\x00", "<", "[", "-", "?"}
+	var recDt func(pre []byte, n int)
+	recDt = func(pre []byte, n int) {
+		emit(xmlCase(pre, 1, "dtsub"))
+		if n == dk {
+			return
+		}
+		for _, f := range c11DtFragments {
+			recDt(append(append([]byte{}, pre...), f...), n+1)
+		}
+	}
+	recDt([]byte("<!DOCTYPE a ["), 0)
 	// (c) generated well-formed documents, every truncation of some, and mutations
 	nd := 3000
 	if tier == "thorough" {
@@ -802,7 +895,7 @@ func xmlShrink(c Case) []Case {
 
 func xmlClass(c Case, out []int64) string {
 	src := "other"
-	for _, p := range []string{"exh-sub", "exh", "frag", "doc", "trunc", "mut", "rand", "shrunk", "corpus", "suite-trunc", "suite"} {
+	for _, p := range []string{"dtsub", "exh-sub", "exh", "frag", "doc", "trunc", "mut", "rand", "shrunk", "corpus", "suite-trunc", "suite"} {
 		if strings.HasPrefix(c.Note, p) {
 			src = p
 			break
@@ -1040,7 +1133,14 @@ func xmlWellFormed(d *xdoc, rep *Report, keyPrefix string) {
 		}
 	}
 	// events from encoding/xml
-	dec := stdxml.NewDecoder(bytes.NewReader(d.src))
+	// encoding/xml does not know processing instructions inside a DOCTYPE (a quote or '>' in one derails
+	// its directive scanner); for such documents it is given the document without the DOCTYPE, which
+	// holds no element or attribute
+	stdsrc := d.src
+	if d.feats["doctype-pi-special"] {
+		stdsrc = d.srcNoDT
+	}
+	dec := stdxml.NewDecoder(bytes.NewReader(stdsrc))
 	var std []xevent
 	for {
 		t, err := dec.RawToken()
